@@ -33,7 +33,7 @@ def ctype_of(e):
 
 
 class Shape:
-    __slots__ = ('ctype', 'f', 'ext', 'rows', 'slots', 'freed', 'fresh')
+    __slots__ = ('ctype', 'f', 'ext', 'rows', 'slots', 'freed', 'fresh', 'nullslots')
 
     def __init__(self, ctype):
         self.ctype = ctype
@@ -43,6 +43,7 @@ class Shape:
         self.slots = []
         self.freed = False
         self.fresh = False
+        self.nullslots = False   # slots outside `slots` are known to be NULL (safe to test, not to dereference)
 
     def copy(self):
         s = Shape(self.ctype)
@@ -52,12 +53,13 @@ class Shape:
         s.slots = list(self.slots)
         s.freed = self.freed
         s.fresh = self.fresh
+        s.nullslots = self.nullslots
         return s
 
     def sig(self):
         return (self.ctype, tuple(sorted((k, repr(v)) for k, v in self.f.items())), repr(self.ext),
                 tuple((repr(a), repr(b), repr(c)) for a, b, c in self.rows),
-                tuple((repr(a), repr(b)) for a, b in self.slots), self.freed)
+                tuple((repr(a), repr(b)) for a, b in self.slots), self.freed, self.nullslots)
 
 
 class St:
@@ -501,7 +503,8 @@ class Engine:
                 if sh.freed:
                     self.flag(e, 'use-after-free', 'storage of %s is used after it was freed' % p, st)
                 self.oblige(e, 'elem' if ct not in PTR_ARRAY_FIELD else 'ptr', idx, sh.ext, st, le=addr)
-                if ct in ('tensor', 'dvectorlist') and not addr:
+                if ct in ('tensor', 'dvectorlist') and not addr and getattr(self, '_lhs_node', None) is not e \
+                        and id(e) not in getattr(self, '_nulltest_nodes', ()):
                     self.slot_check(e, p, sh, idx, st)
                 return
             if ct and b.get('name') == 'data':
@@ -639,11 +642,16 @@ class Engine:
             self.store_int(l, val, st)
             return
         self.visit(r, st)
+        self._lhs_node = strip(l)
         self.visit(l, st, lhs=True)
+        self._lhs_node = None
         lt = (ls.get('type') or {}).get('qualType', '')
         # container pointer assignment:  X = Y  /  X = call()  /  (*m) = ...
         lct = ctype_of(l)
         if lct and '*' in lt:
+            if ls.get('kind') == 'ArraySubscriptExpr':
+                self.deep_copy_rule(e, l, r, st)
+                self.slot_store(ls, r, st)
             lp = self.cpath(l, st)
             if rcall is not None:
                 self.ck.apply_return(self, rcall, lp, lct, st)
@@ -700,8 +708,14 @@ class Engine:
             p = self.cpath(cont, st) if b.get('isArrow') else self.cpath_lv(cont, st)
             if ct in ('tensor', 'dvectorlist', 'strvector') and p:
                 idx = self.ev(kids(ls)[1], st)
-                st.iter_slots[(p, repr(idx))] = True
                 sh = self.shape(st, p, ct)
+                if r is not None and self.is_null(r):
+                    # slot explicitly cleared: if no slot of this container is valid yet, all of them are NULL or unset;
+                    # an initialisation loop over the whole array makes them all NULL
+                    if not sh.slots:
+                        sh.nullslots = True
+                    return
+                st.iter_slots[(p, repr(idx))] = True
                 sh.slots = sh.slots + [(idx, idx + 1)]
 
     def alloc_store(self, node, ls, ext, st, realloc=False):
@@ -843,6 +857,20 @@ class Engine:
                                 return [([-(sh.f[first])] + [-(sh.f[f_]) for f_ in CONTAINER[ct][1:]] if not sh.fresh else [],
                                          [lambda s, p=p, ct=ct: self.set_null(s, p, ct)])]
                             return [([], [])]
+                for x, y in ((a, b), (b, a)):
+                    xs = strip(x)
+                    if xs.get('kind') == 'ArraySubscriptExpr' and self.is_null(y) and op in ('==', '!='):
+                        bx = strip(kids(xs)[0])
+                        if bx.get('kind') == 'MemberExpr' and bx.get('name') in ('m', 'd'):
+                            cont = kids(bx)[0]
+                            ct = ctype_of(cont) if bx.get('isArrow') else self._lv_ctype(cont)
+                            p = self.cpath(cont, st) if bx.get('isArrow') else self.cpath_lv(cont, st)
+                            if ct in ('tensor', 'dvectorlist') and p:
+                                nonnull = (op == '!=') == positive
+                                idx = self.ev(kids(xs)[1], st)
+                                if nonnull:
+                                    return [([], [lambda s, p=p, ct=ct, idx=idx: self.mark_valid_slot(s, p, ct, idx)])]
+                                return [([], [])]
                 if fe.is_float_type(sa) or fe.is_float_type(sb) or '*' in fe.qual(sa) or '*' in fe.qual(sb):
                     return [([], [])]
                 pa, pb = self.ev(a, st), self.ev(b, st)
@@ -874,6 +902,12 @@ class Engine:
         s = strip(e)
         return fe.int_value(s) == 0 or (s.get('kind') == 'GNUNullExpr')
 
+    def mark_valid_slot(self, st, p, ct, idx):
+        sh = self.shape(st, p, ct)
+        if sh.nullslots:
+            sh.slots = sh.slots + [(idx, idx + 1)]
+            st.iter_slots[(p, repr(idx))] = True
+
     def set_null(self, st, p, ct):
         sh = self.shape(st, p, ct)
         sh.ext = Poly.const(0)
@@ -900,6 +934,14 @@ class Engine:
 
     def split(self, c, st):
         """[(state, True|False)] successors of a condition"""
+        if not hasattr(self, '_nulltest_nodes'):
+            self._nulltest_nodes = set()
+        for x in walk(c):
+            if x.get('kind') == 'BinaryOperator' and x.get('opcode') in ('==', '!='):
+                a_, b_ = kids(x)
+                for u, w in ((a_, b_), (b_, a_)):
+                    if self.is_null(w) and strip(u).get('kind') == 'ArraySubscriptExpr':
+                        self._nulltest_nodes.add(id(strip(u)))
         self.visit(c, st)
         out = []
         for pol in (True, False):
@@ -955,6 +997,8 @@ class Engine:
                 t = (n.get('type') or {})
                 if (t.get('desugaredQualType') or t.get('qualType')) in ('int', 'long', 'short', 'char'):
                     pass
+        if getattr(self, 'entry_tweak', None):
+            self.entry_tweak(self, st)
         flows = self.exec(self.f.body, [st])
         self.exit_states = flows['norm'] + flows['ret']
         return self
@@ -1201,7 +1245,9 @@ class Engine:
             flows['ret'] += fb['ret']
             # ---- exit states
             exits = []
-            if loop['kind'] != 'DoStmt':
+            fold_zero = bool(ind and after and cond is not None and ind['step'].const_value() == 1 and ind['op'] == '<' and
+                             prove_nonneg(ind['bound'] - ind['init'], st.facts + self.pre, equalities=st.eqs) and not skip)
+            if loop['kind'] != 'DoStmt' and not fold_zero:
                 z = st.copy()
                 if ind:
                     z.vals[ivar] = ind['init']
@@ -1226,7 +1272,7 @@ class Engine:
                 step = ind['step'].const_value()
                 if step == 1 and ind['op'] == '<':
                     post.vals[ivar] = ind['bound']
-                    ok = post.add_fact(ind['bound'] - ind['init'] - 1)
+                    ok = True if fold_zero else post.add_fact(ind['bound'] - ind['init'] - 1)
                     reach_post = reach_post and ok
                 elif step == 1 and ind['op'] == '<=':
                     post.vals[ivar] = ind['bound'] + 1
@@ -1457,6 +1503,11 @@ class Engine:
             sh = post.shapes.get(p)
             if sh is not None:
                 sh.slots = [r for r in sh.slots if '@L%d' % line not in repr(r[0])] + [(ind['init'], post.vals[ind['var']])]
+        # a loop whose every iteration cleared a slot of a container with no valid slot leaves all slots NULL
+        for p_, sh in post.shapes.items():
+            if sh.ctype in ('tensor', 'dvectorlist') and not sh.slots and all(
+                    (s2.shapes.get(p_) is not None and s2.shapes[p_].nullslots) for s2 in after):
+                sh.nullslots = True
         # drop per-iteration single-row segments that mention the loop atom
         for sh in post.shapes.values():
             sh.rows = [r for r in sh.rows if '@L%d' % line not in (repr(r[0]) + repr(r[1]) + repr(r[2]))]
